@@ -222,7 +222,7 @@ func raceSite(rep string) string {
 
 func main() {
 	kit.Main(&kit.Check{
-		ID: "C35", Level: "model_checking",
+		ID: "C35", Level: "model_checking", SlowIsNotHang: true,
 		Rule:          "readers: (world kind, multiset of 2 (thorough: 3) query scripts) — every interleaving of the reader goroutines at the world's lock points, each result compared with the script's sequential result; build: (source, builder) with 2 goroutines — every interleaving up to the bound, no deadlock/panic, dump equal to the 1-core world; race: one free-running pass under the race detector (auxiliary). Non-trivial = at least one scheduling choice; distinct = happens-before keys.",
 		Assumptions:   []string{"the controlled scheduler decides atomicity and deadlock; unsynchronised accesses are only witnessed by the auxiliary race-detector pass, which samples", "sync/atomic operations are not scheduling points"},
 		QuickDeadline: 250e9, ThoroughDeadline: 1500e9, CaseTimeout: 600e9, Chunk: 1,
